@@ -1,6 +1,7 @@
 package c08
 
 import (
+	"bytes"
 	"encoding/asn1"
 	"fmt"
 	"math/big"
@@ -936,5 +937,86 @@ func gmTicketIdentityUnit() harness.Unit {
 				}
 			}
 		}
+	}}
+}
+
+// ticketLaunderingUnit: a ticket travels in the clear, so anybody can OFFER somebody else's ticket.
+// Connection 1: the victim authenticates with its certificate and receives ticket T1. Connection 2:
+// the attacker (own key material only, no certificate) offers T1 in a hello that cannot resume it
+// (another suite), goes through a full handshake without client certificate and receives T2, whose
+// master secret it knows. Connection 3: the attacker resumes T2. The server must never attribute the
+// victim's identity to that session: a session is worth what its own full handshake proved.
+func ticketLaunderingUnit() harness.Unit {
+	return harness.Unit{Name: "ticket-laundering", Run: func(c *harness.Ctx) {
+		p := tlsk.Get()
+		type flavour struct {
+			name   string
+			suites [2]uint16
+			tls    bool
+		}
+		for _, f := range []flavour{{"GMSSL", [2]uint16{gmtls.GMTLS_ECC_SM4_CBC_SM3, gmtls.GMTLS_ECC_SM4_GCM_SM3}, false}, {"TLS 1.2", [2]uint16{gmref.SuiteAESCBC, gmref.SuiteAESGCM}, true}} {
+			for si := 0; si < 2; si++ {
+				for _, pol := range []gmtls.ClientAuthType{gmtls.RequestClientCert, gmtls.VerifyClientCertIfGiven} {
+					s1, s2 := f.suites[si], f.suites[1-si]
+					var sc *gmtls.Config
+					victim := tlsk.ClientIdentity()
+					if f.tls {
+						sc = &gmtls.Config{Certificates: []gmtls.Certificate{p.RSA}, Time: tlsk.FixedTime, Rand: wire.NewRand(41), ClientAuth: pol, ClientCAs: p.StdRootsG, MinVersion: 0x0303, MaxVersion: 0x0303, CipherSuites: f.suites[:]}
+						victim = gmref.Identity{Certs: [][]byte{p.StdClient.Certificate[0]}, TLSKey: p.StdClient.PrivateKey}
+					} else {
+						sc = &gmtls.Config{GMSupport: &gmtls.GMSupport{}, Certificates: []gmtls.Certificate{p.Sign, p.Enc}, Time: tlsk.FixedTime, Rand: wire.NewRand(41), ClientAuth: pol, ClientCAs: p.Roots, CipherSuites: f.suites[:]}
+					}
+					sc.SetSessionTicketKeys([][32]byte{{2, 7, 1}})
+					tag := fmt.Sprintf("%s, ClientAuth=%d: victim's session on suite %04x; the attacker offers the victim's ticket with suite %04x and no certificate, then resumes the ticket it got", f.name, pol, s1, s2)
+					c.Add("evaluations", 1)
+					c.DistinctS("nontrivial", tag)
+					conn := func(id gmref.Identity, seed byte, suite uint16, sendCert bool, ticket, master []byte, tsuite uint16) (*tlsk.RefOutcome, *gmref.Peer) {
+						var pr *gmref.Peer
+						o := tlsk.RunLibVsRef(sc, false, tlsk.LibApp(false), id, seed, func(q *gmref.Peer) {
+							if f.tls {
+								q.UseTLS()
+							}
+							q.Suites = []uint16{suite}
+							q.OfferTicket = true
+							if ticket != nil {
+								q.Ticket, q.ResumeMaster, q.ResumeSuite = ticket, master, tsuite
+							}
+							pr = q
+						}, &gmref.Script{SendClientCert: sendCert, Data: tlsk.PingPong(true)}, nil)
+						return o, pr
+					}
+					o1, v := conn(victim, 161, s1, true, nil, nil, 0)
+					if !o1.Lib.Complete || v == nil || v.NewTicket == nil || len(o1.Lib.PeerCerts) == 0 {
+						c.Note("victim's connection did not yield a ticket: %s", o1.Describe())
+						c.Add("harness_divergences", 1)
+						continue
+					}
+					// the attacker knows the ticket bytes (seen on the wire), not the master secret
+					o2, a := conn(gmref.Identity{}, 162, s2, false, v.NewTicket, bytes.Repeat([]byte{0x11}, 48), s1)
+					if o2.Lib.Panic != nil || o2.LibStuck {
+						c.Violate("panic-or-hang:ticket-laundering", fmt.Sprintf("[%s] %s", tag, o2.Describe()), nil, tag)
+						continue
+					}
+					if o2.Lib.Complete && len(o2.Lib.PeerCerts) > 0 {
+						c.Violate("ticket-laundering:identity-without-proof", fmt.Sprintf("[%s] connection 2 (resumed=%v) reports %d peer certificates although the client sent none and does not know the victim's master secret", tag, o2.Lib.DidResume, len(o2.Lib.PeerCerts)), nil, tag)
+						continue
+					}
+					if !o2.Lib.Complete || a == nil || a.NewTicket == nil {
+						c.Add("attacker_got_no_ticket", 1)
+						continue
+					}
+					o3, _ := conn(gmref.Identity{}, 163, s2, false, a.NewTicket, a.Master, s2)
+					if o3.Lib.Panic != nil || o3.LibStuck {
+						c.Violate("panic-or-hang:ticket-laundering", fmt.Sprintf("[%s] %s", tag, o3.Describe()), nil, tag)
+						continue
+					}
+					c.DistinctS("outcomes", fmt.Sprintf("%v/%v/%d", o3.Lib.Complete, o3.Lib.DidResume, len(o3.Lib.PeerCerts)))
+					if o3.Lib.Complete && len(o3.Lib.PeerCerts) > 0 {
+						c.Violate("ticket-laundering:resumed-with-the-victims-identity", fmt.Sprintf("[%s] connection 3 (resumed=%v) reports %d peer certificates: the attacker's own session never proved any identity", tag, o3.Lib.DidResume, len(o3.Lib.PeerCerts)), nil, tag)
+					}
+				}
+			}
+		}
+		c.Sample("GMSSL and TLS 1.2 x both suites x ClientAuth {request, verify-if-given}: victim's ticket offered by a keyless attacker in a hello that forces a full handshake, the ticket issued there resumed")
 	}}
 }
